@@ -21,6 +21,7 @@ EXPLANATION = (
     "circuits: per-step time of the repeated step and of the un-shifted terms is time/n_steps, the shifted term gets "
     "(time+shift)/n_steps, shift = factor*pi/(4r) and output factor r*factor with r = c.real/n_steps (normal forms), "
     "both signs enumerated, the spliced sequence places the shifted step at exactly one position."
+    ' Round 5: (D5) no cache keyed by Pauli terms; is_constant looks at the factors only.'
 )
 RULE_TEXT = "instances = guards, loops, call arguments (as polynomial normal forms) and composition expressions in the four functions of evolution.py; distinct by (rule, construct)"
 ASSUMPTIONS = [
